@@ -5,6 +5,7 @@ times, the sample with only the gene/pseudogene reads multiplied, and the profil
 its own profile; region depths are read from Coverage.region_coverage after Sample construction and
 the structure calls from estimate_cn.
 """
+import collections
 import os
 
 from .. import util
@@ -41,6 +42,9 @@ def plan(tier, seed):
     for k in range(2 if tier == "quick" else 12):
         cases.append({"kind": "profile_cmd", "seed": seed, "k": k,
                       "gene": ["cyp2c19", "tpmt", "nudt15", "cyp2a6"][k % 4]})
+    cases.append({"kind": "na10860", "file": "NA10860.bam", "genome": "hg19"})
+    if tier == "thorough":
+        cases.append({"kind": "na10860", "file": "NA10860_hg38.bam", "genome": "hg38"})
     return cases
 
 
@@ -231,9 +235,63 @@ def _profile_cmd_case(res, case):
     res.sample = desc
 
 
+def _na10860_case(res, case):
+    """The shipped BAM as its own profile: 2.0 up to the share of reads the evidence loader leaves out
+    (supplementary / hard-clipped / sequence-less reads are in the profile but not in the sample)."""
+    import pysam
+    from aldy.common import GRange
+    from aldy.profile import Profile
+    from aldy.sam import Sample
+
+    g = tables.gene("cyp2d6", case["genome"])
+    path = os.path.join(util.REPO, "aldy/tests/resources", case["file"])
+    cn_region = {"hg19": GRange("22", 42547463, 42548249), "hg38": GRange("22", 42151472, 42152258)}[case["genome"]]
+    prof = Profile.load(g, path, cn_region)
+    s = Sample(g, prof, path)
+    # per region: bases the profile counted vs bases of eligible reads
+    with pysam.AlignmentFile(path) as sam:
+        prefix = "chr" if any(x["SN"].startswith("chr") for x in sam.header["SQ"]) else ""
+        wr = g.get_wide_region()
+        ptot = collections.Counter()
+        pinel = collections.Counter()
+        for r in sam.fetch(prefix + g.chr, max(0, wr.start - 1000), wr.end + 1000):
+            if not r.cigartuples:
+                continue
+            bad = r.is_supplementary or "H" in (r.cigarstring or "") or not r.query_sequence
+            c = r.reference_start
+            for op, n in r.cigartuples:
+                if op in (0, 2, 7, 8):
+                    for i in range(c, c + n):
+                        ptot[i] += 1
+                        if bad:
+                            pinel[i] += 1
+                    c += n
+        tot = collections.Counter()
+        inel = collections.Counter()
+        for gi, regs in enumerate(g.regions):  # regions of gene and pseudogene may overlap (CYP2D6 up / CYP2D7 rep)
+            for rname, rg in regs.items():
+                for i in range(rg.start, rg.end):
+                    tot[(gi, rname)] += ptot[i]
+                    inel[(gi, rname)] += pinel[i]
+    for (gi, rname), v in region_depths(s).items():
+        if prof.data[g.name][rname][gi] == 0 or tot[(gi, rname)] == 0:
+            continue
+        share = inel[(gi, rname)] / tot[(gi, rname)]
+        res.check("self_profile_two", abs(v - 2.0 * (1 - share)) <= 1e-6 * 2 + 1e-9,
+                  "shipped BAM against its own profile does not read 2.0 x (eligible / all bases)",
+                  region=[gi, rname], got=v, eligible_share=1 - share, file=case["file"])
+    res.fp = util.fingerprint(case)
+    res.nontrivial = True
+    res.sample = {"file": case["file"], "regions": len(tot)}
+
+
 def run(case):
     util.import_aldy()
     res = Res()
+    if case["kind"] == "na10860":
+        import collections  # noqa
+        _na10860_case(res, case)
+        return res
     if case["kind"] == "gen":
         _gen_case(res, case)
     else:
